@@ -53,7 +53,7 @@ CLAIMS = {
            "status_edges(_run) (only the documented status edges), stop_idempotent, stop_from_any_status, "
            "start_after_stop_raises, start_idempotent_running, start_noop_when_finished, start_resumes_restored, "
            "send_noop_unless_running, async_presend_processed_at_start, nothing_processed_after_stop(_restores) "
-           "(30); every generated call sequence is run on both real engines and on the model driver; descendants: "
+           "(33, incl. stop_leaves_no_finished_status_below / stop_forgets_finished_below / finished_blocking_child_is_stopped_with_its_subtree over the actor-system model); every generated call sequence is run on both real engines and on the model driver; descendants: "
            "actor worlds (spawnChild / spawn_ / invoke trees, children that finish by themselves while they own live "
            "descendants) ended by stop() of the root, tied to the Lean actor model (parent_stop_stops_subtree, "
            "nothing_delivered_after_stop in Properties/C15), judged from the first stop() on; stop() inside a macrostep and "
